@@ -18,34 +18,29 @@ META = {
                  "bookkeeping for orientation/manifoldness, counting for Euler characteristic, field identities for "
                  "area/volume; an invariant over all operation histories for acceptance) + kernel-checked "
                  "correspondence batches on generated surfaces, tetrahedral meshes and polylines + independent oracle",
-    "level_text": "Machine-checked Coq theorems (coq/theories/C13/Props.v, all closed under the global context) about an "
-                  "executable model of subdivision.py after six fix: commits, whose face/edge/cell tuples, half-table keys, "
-                  "midpoint/barycentre formulas, arity tests, loop counts and enter/exit plumbing are regenerated from the "
-                  "source on every run. FULL, for all meshes/histories: documented V/E/F/C deltas of every operation and the "
-                  "Euler characteristic (for loop_subdivision: E'=2E+3F under the manifold hypotheses below); per-rewrite "
-                  "directed-edge balance (pieces carry the face's directed edges or their halves, interior ones cancel in "
-                  "opposite pairs) for quad split, fan of any n-gon, 1-to-4, 1-to-3-quads, face-centre split, lifted to whole "
-                  "refinement steps; closedness preserved; oriented manifoldness (each directed edge once, distinct in-range "
-                  "vertices) preserved by fan, 3quads and by loop_subdivision(n) for every n (together with 'no two faces on "
-                  "the same three vertices'); over any field with 2,3 invertible: new vertices are the stated "
-                  "midpoints/barycentres, pieces of a triangle are fixed positive fractions of its vector area (coplanar, "
-                  "co-oriented), vector area additive for the quad split and the fan of any polygon around any apex, signed "
-                  "volume additive (quarters/thirds) for both tetrahedral splits; every history of editor operations with "
-                  "existing element ids succeeds on every prepared surface / tetrahedral mesh. PARTIAL (guard named): the quad "
-                  "split preserves manifoldness when the cut diagonal is not joined yet; the object passed in equals the result "
-                  "when no operation replaced the raw data and its connectivity had not been queried. REFUTED (two recorded "
-                  "known findings, witnesses proved in Coq and replayed on every run): the object passed in is left "
-                  "half-updated / with stale tables; triangulate() on a manifold but non-simple quad configuration. Also FULL: "
-                  "border directed edges of a refinement are exactly the halves of the border edges (loop, 3quads) resp. "
-                  "unchanged (fan; quad split under its guard), and connected components are in bijection (old vertices joined "
-                  "afterwards iff joined before, every new vertex joined to an old one) for loop, 3quads, fan, quad split; "
-                  "triangulate() as a whole loop preserves oriented manifoldness under the guard 'cuts not joined yet and "
-                  "pairwise different' and one round of subdivide_triangles_6 discharges that guard; the selection rule of "
-                  "split_double_boundary_edges_triangles; for both tetrahedral splits the oriented sides of the pieces are "
-                  "the old sides (the split side replaced by its fan) plus interior sides in opposite pairs. Tested only "
-                  "(correspondence + oracle): number of border LOOPS as cycles, global conformity of refined tetrahedral "
-                  "meshes and the faces/edges their prepare() adds on exit, repeat>=2 of subdivide_triangles_6 as manifold, "
-                  "Python-set order effects.",
+    "level_text": "Machine-checked Coq theorems (coq/theories/C13/Props.v, 76, all closed under the global context) about an executable "
+                  "model of subdivision.py after six fix: commits; face/edge/cell tuples, half-table keys, midpoint/barycentre "
+                  "formulas, arity tests, loop counts and enter/exit plumbing are regenerated from the source on every run. "
+                  "FULL (all meshes / histories): documented V/E/F/C deltas and Euler characteristic of split_edge, fan, quad "
+                  "split, 3quads; per-rewrite directed-edge balance lifted to whole refinement steps; closedness; border edges "
+                  "= halves of border edges (loop, 3quads) / unchanged (fan); components in bijection (loop, 3quads, fan, quad "
+                  "split); oriented manifoldness preserved by fan and 3quads; original vertices are a prefix of the output and "
+                  "new vertex k is the generated centre formula of edge k / face j / the cell (every operation); over any "
+                  "field with 2,3 invertible: centres, quarter/third vector areas, additivity for quad split and any fan, "
+                  "quarter/third signed volumes, and - on the model's OUTPUT - total vector area of loop_step and total signed "
+                  "volume of the cell fan unchanged; split_cell_as_fan preserves conformity of the whole mesh; oriented sides of "
+                  "the pieces of both tetrahedral splits; selection rule of split_double_boundary_edges_triangles; every history "
+                  "with existing ids succeeds on every prepared surface / tetrahedral mesh. PARTIAL (guard in the name and "
+                  "statement, NOT in the property's quantifier): loop_subdivision(n) manifold / simple / E'=2E+3F / Euler and one "
+                  "round of subdivide_triangles_6 need `simple_tri` (no two triangles on the same three vertices); quad split "
+                  "and whole-loop triangulate() need the cut diagonals free (`cuts_free`); argument object = result only when no "
+                  "operation replaced the raw data and connectivity was not queried. REFUTED (four narrowly keyed known findings, "
+                  "Coq witnesses, replayed every run): argument half-updated after a replacing operation; argument with stale "
+                  "tables after an in-place edit; triangulate() on a quad whose cut is already joined; loop_subdivision on two "
+                  "triangles with the same vertices. TESTED ONLY (correspondence + oracle): number of border loops as cycles, "
+                  "Euler characteristic and global conformity after split_tet_from_face_center and the faces/edges prepare() adds "
+                  "on exit of the volume block, subdivide_triangles_6(repeat>=2) manifold, chaining of the manifold invariants "
+                  "across mixed histories (fan then loop), Python-set order effects.",
     "level_note": "Trusted: Coq kernel + vm_compute; the subdivision.py translator; the correspondence harness "
                   "(generators, driver canonicalisation, exact rational read-back of binary64 coordinates on inputs that "
                   "are multiples of 2^10*3^5*5*7). The order of a Python set (loop_subdivision's edge set) is not "
@@ -59,18 +54,54 @@ Require Import MV.Lib.Base MV.C13.Defs MV.C13.Gen MV.C13.Model MV.C13.Run.
 Open Scope Z_scope.
 """
 
-KNOWN_KEY = "C13/input-object-half-updated"
+# ---- recorded known findings: each key names a mechanism / input class that the classifier below CHECKS on the failing case
+KEY_ARG_REPLACED = "C13/input-object-half-updated/replacing-operation"     # Loop n>=1 / Quads3 / Tri6 r>=1 in the block
+KEY_ARG_STALE = "C13/input-object-stale-tables/edited-in-place"           # containers = result, cached tables of before
+KEY_CUT = "C13/non-simple-input-triangulate"                               # quad cut B-D already joined
+KEY_PILLOW = "C13/two-triangles-on-same-vertices/loop-or-tri6"             # two triangles on the same three vertices
 WITNESS = {"kind": "surf", "V": [[0, 0, 0], [2 * G.UNIT, 0, 0], [0, 2 * G.UNIT, 0]], "F": [[0, 1, 2]],
            "ops": [["loop", 1]], "query": False, "planar": True, "seed_kind": "witness"}
 WITNESS2 = {"kind": "surf", "V": [[0, 0, 0], [3 * G.UNIT, 0, 0], [0, 3 * G.UNIT, 0]], "F": [[0, 1, 2]],
             "ops": [["fan", 0]], "query": True, "planar": True, "seed_kind": "witness"}
-
-
-KNOWN_KEY2 = "C13/non-simple-input-triangulate"
 WITNESS_NS = {"kind": "surf",
               "V": [[-G.UNIT, 0, 0], [0, G.UNIT, 0], [0, 0, G.UNIT], [0, 0, -G.UNIT], [G.UNIT, 0, 0], [0, -G.UNIT, 0]],
               "F": [[5, 4, 2], [3, 1, 4], [4, 1, 2], [4, 5, 3], [2, 1, 0, 5], [3, 5, 0, 1]],
               "ops": [["triangulate"]], "query": False, "planar": False, "seed_kind": "witness"}
+WITNESS_PILLOW = {"kind": "surf", "V": [[0, 0, 0], [4 * G.UNIT, 0, 0], [0, 4 * G.UNIT, 0]], "F": [[0, 1, 2], [2, 1, 0]],
+                  "ops": [["loop", 1]], "query": False, "planar": False, "seed_kind": "witness"}
+
+REPLACING = {"loop": lambda op: op[1] >= 1, "quads3": lambda op: True, "tri6": lambda op: op[1] >= 1}
+TRIANGULATING = ("triangulate", "triface", "loop", "quads3", "tri6")
+
+
+def has_replacing_op(case):
+    return case["kind"] == "surf" and any(op[0] in REPLACING and REPLACING[op[0]](op) for op in case.get("ops", []))
+
+
+def failure_key(case, o, cls):
+    """The known-finding key this failing element belongs to, or None (= a violation).  Every key is decided by a property
+    of the CASE and of what was observed, never by the failure kind alone."""
+    if cls == "arg/half-updated" and o.get("status") == "ok":
+        arg, res = o["arg"], o["res"]
+        if has_replacing_op(case) and arg.get("corn") == [] and len(arg.get("F", [])) > 0:
+            return KEY_ARG_REPLACED         # the raw data was replaced: the argument kept its containers, corners emptied on entry
+        same = all(arg.get(k) == res.get(k) for k in ("V", "E", "F", "C", "corn", "ccorn") if k in res)
+        edited = any(arg.get(k) != o["input"].get(k) for k in ("V", "E", "F", "C") if k in res)
+        tables_before = bool(case.get("query")) or case["kind"] == "vol"     # the volume block computes cell adjacency on entry
+        if same and edited and tables_before and not o.get("arg_conn_ok", True):
+            return KEY_ARG_STALE
+        return None
+    if cls.startswith("result/") and case["kind"] == "surf":
+        ns = ORA.non_simple_surface(case["F"])
+        ops = [op[0] for op in case.get("ops", [])]
+        if ns and ns[0] == "joined-cut" and any(nm in TRIANGULATING for nm in ops) and cls in (
+                "result/invalid", "result/counts", "result/edges", "result/topology", "result/area", "result/orientation"):
+            return KEY_CUT
+        if ns and ns[0] == "same-vertex-triangles" and any(
+                (op[0] == "loop" and op[1] >= 1) or (op[0] == "tri6" and op[1] >= 1) for op in case.get("ops", [])) and cls in (
+                "result/invalid", "result/counts", "result/edges", "result/topology", "result/area"):
+            return KEY_PILLOW
+    return None
 
 
 def gen(ctx):
@@ -122,8 +153,8 @@ def arity_sim(ar, op):
 
 
 def gen_simple_surface(rng, size, kind=None):
-    """inputs of the random stream are simple (see c13_oracle.non_simple_surface); the non-simple class is a recorded
-    known finding exercised by its witness"""
+    """the random stream leaves out exactly the two input classes recorded as known findings (c13_oracle.non_simple_surface:
+    two triangles on the same three vertices; a quad whose cut B-D is already joined); each is exercised by its witness"""
     while True:
         mesh = G.gen_surface(rng, size, kind)
         if ORA.non_simple_surface(mesh["F"]) is None:
@@ -352,7 +383,8 @@ def shrink(case, cls):
     """smaller case failing with the same class key"""
     def fails(c):
         try:
-            return any(k == cls for k, _ in ORA.check(c, run_one(c)))
+            oc = run_one(c)
+            return any(k == cls and failure_key(c, oc, k) is None for k, _ in ORA.check(c, oc))
         except Exception:
             return False
     cur = dict(case)
@@ -421,10 +453,6 @@ def nontrivial(case, o):
     if case["kind"] == "poly":
         return len(case["splits"]) > 0
     return len(case["ops"]) > 0
-
-
-def known_class(cls):
-    return cls == "arg/half-updated"
 
 
 def run(ctx):
@@ -505,40 +533,52 @@ def run(ctx):
     else:
         ctx.obligation("correspondence batches", "correspondence", False, "model does not compile")
 
-    # 3. the recorded witnesses of the known finding are replayed on every run
-    for w in (WITNESS, WITNESS2):
-        ow = run_one(strip(w))
-        fw = [(k, m) for k, m in ORA.check(w, ow) if known_class(k)]
+    # 3. the recorded witness of every known finding is replayed on every run (and must fall under its own key)
+    wl = [(KEY_ARG_REPLACED, WITNESS), (KEY_ARG_STALE, WITNESS2), (KEY_CUT, WITNESS_NS), (KEY_PILLOW, WITNESS_PILLOW)]
+    wres = core.run_impl("vf.impl.c13_driver", {"cases": [strip(w) for _, w in wl]}, timeout=300)["obs"]
+    wobs = {k: o for (k, _), o in zip(wl, wres)}
+    for key, w, what in ((KEY_ARG_REPLACED, WITNESS, "mesh object passed in (replacing operation)"),
+                         (KEY_ARG_STALE, WITNESS2, "mesh object passed in (edited in place, tables of before)"),
+                         (KEY_CUT, WITNESS_NS, "quad cut along a diagonal that is already joined"),
+                         (KEY_PILLOW, WITNESS_PILLOW, "two triangles on the same three vertices")):
+        ow = wobs[key]
+        fw = [(k, m) for k, m in ORA.check(w, ow) if failure_key(w, ow, k) == key]
+        other = [(k, m) for k, m in ORA.check(w, ow) if failure_key(w, ow, k) is None]
         if fw:
-            ctx.violation("mesh object passed in: " + fw[0][1], {"case": strip(w), "class": fw[0][0]}, key=KNOWN_KEY)
+            ctx.violation("%s: %s" % (what, fw[0][1]), {"case": strip(w), "class": fw[0][0]}, key=key)
         else:
-            ctx.log("known-finding witness %s no longer fails (the argument object is now unchanged or equal to the result)" % w["ops"])
-            ctx.notes.append("known finding %s: witness %s no longer reproduces" % (KNOWN_KEY, w["ops"]))
+            ctx.log("known-finding witness of %s no longer fails" % key)
+            ctx.notes.append("known finding %s: witness no longer reproduces" % key)
+        for k, m in other[:2]:
+            ctx.violation("witness of %s fails in an unrecorded way: %s: %s" % (key, k, m), {"case": strip(w), "class": k})
 
-    # ... and the witness of the second known finding (a manifold input that is not simple)
-    ow = run_one(strip(WITNESS_NS))
-    fw = [(k, m) for k, m in ORA.check(WITNESS_NS, ow) if k.startswith("result/")]
-    if ORA.non_simple_surface(WITNESS_NS["F"]) and fw:
-        ctx.violation("non-simple manifold input: " + fw[0][1], {"case": strip(WITNESS_NS), "class": fw[0][0]}, key=KNOWN_KEY2)
-    else:
-        ctx.log("known-finding witness (non-simple input) no longer fails")
-        ctx.notes.append("known finding %s: witness no longer reproduces" % KNOWN_KEY2)
-
-    # 4. verdicts
+    # 4. verdicts: EVERY failing element is classified; unknown keys are violations and are reported first
+    keyed = [(idx, cls, msg, failure_key(cases[idx], obs[idx], cls)) for idx, cls, msg in fails]
+    unknown = [f for f in keyed if f[3] is None]
+    for idx, cls, msg, key in keyed:
+        if key is not None:
+            ctx.count("known finding observed: " + key)
+    ctx.obligation("oracle: every observation of the implementation satisfies the property (failures under a recorded key excepted)",
+                   "oracle-on-implementation", not unknown,
+                   "%d failing elements, %d of them under no recorded key; first: %s" %
+                   (len(keyed), len(unknown), "; ".join("%d:%s" % (i, c) for i, c, _, _ in unknown[:4])))
     reported = set()
-    for idx, cls, msg in fails:
-        if known_class(cls):
-            ctx.count("known finding observed")
-            if ctx.known(KNOWN_KEY):
-                continue
+    for idx, cls, msg, _ in unknown:
         if cls in reported or len(reported) >= 6:
             continue
         reported.add(cls)
         small = shrink(strip(cases[idx]), cls)
         o2 = run_one(small)
-        m2 = [m for k, m in ORA.check(small, o2) if k == cls]
-        ctx.violation("%s: %s" % (cls, m2[0] if m2 else msg), {"case": small, "class": cls},
-                      key=KNOWN_KEY if known_class(cls) else None)
+        m2 = [m for k, m in ORA.check(small, o2) if k == cls and failure_key(small, o2, k) is None]
+        if not m2:
+            small, o2, m2 = strip(cases[idx]), obs[idx], [msg]
+        ctx.violation("%s: %s" % (cls, m2[0]), {"case": small, "class": cls})
+    for key in sorted({k for _, _, _, k in keyed if k is not None}):
+        if ctx.known(key):
+            ctx.report_known(key, ctx.known(key)["what"])
+        else:
+            i0 = [i for i, _, _, k in keyed if k == key][0]
+            ctx.violation("failure classified under %s, which is not a recorded finding" % key, {"case": strip(cases[i0]), "class": key})
     allbad = sorted(i for l in bad.values() if l for i in l)
     if allbad:
         explained = {i for i, cls, _ in fails}
